@@ -73,7 +73,16 @@ fn read_observers() {
             match in_handler {
                 Some(sub) => log(Ev::ReadInHandler { sub, slot: i as u8, result: r }),
                 None if IN_OBS_CB.with(|c| c.get()) => log(Ev::ReadInObsCb { slot: i as u8, result: r }),
-                None => log(Ev::ReadInFn { slot: i as u8, result: r }),
+                None => {
+                    // the panicking accessor too: inside a node function `value()` must not hand out a value either
+                    // (it unwraps the same error; the panic is caught right here). Added after seed C07-d.
+                    if r.is_err() {
+                        if let Ok(v) = std::panic::catch_unwind(std::panic::AssertUnwindSafe(|| h.value())) {
+                            log(Ev::ReadInFn { slot: i as u8, result: Ok(v) });
+                        }
+                    }
+                    log(Ev::ReadInFn { slot: i as u8, result: r })
+                }
             }
         }
     }
@@ -474,7 +483,8 @@ impl GraphWorld {
                 let own_token: Rc<Cell<Option<SubscriptionToken>>> = Rc::new(Cell::new(None));
                 let own_token_ = own_token.clone();
                 let self_unsub = self.prog.alpha.handler_self_unsub;
-                let self_disallow = self.prog.alpha.handler_self_disallow;
+                // (never on a pinned observer: families rely on pinned binds staying observed, DESIGN §8)
+                let self_disallow = self.prog.alpha.handler_self_disallow && !self.model.obs[*s as usize].pinned;
                 let my_slot = *s as usize;
                 let weak_state = self.state.weak();
                 // a handler may own a Var handle (it is not an observer)
